@@ -590,7 +590,8 @@ func c24CommonPrefix(a, b []byte) int64 {
 //
 // Metadata: every metadata write is fsynced except the virtual-tail update of a
 // tail truncation, so the versions a crash can leave are the current one and its
-// predecessors that differ only in the tail field. An older version with another
+// predecessors that differ only in the tail field (and whose index prefix was not
+// rewritten since - a rewritten index can shift the flushOffset back to an old value). An older version with another
 // flushOffset can only be left by a crash inside the operation that replaced it
 // (e.g. between an index truncation and the flushOffset update); it is paired
 // with otherwise intact files (modes 3 and 4).
@@ -621,7 +622,15 @@ func c24Image(rt *rapid.T, cfg *c24Config, p *c24Point, mode int) crashfs.Cuts {
 		// 1. metadata version
 		last := len(meta.Versions) - 1
 		chain := last
-		for chain > 0 && parse(chain-1).Offset == parse(last).Offset {
+		unchanged := func(i int) bool { // index below the version's flushOffset untouched since it was first observed
+			ref, ok := p.refs[t.name][string(meta.Versions[i])]
+			if !ok {
+				return false
+			}
+			n := min(int64(parse(i).Offset), int64(len(ref)))
+			return c24CommonPrefix(ref[:n], idx.Data) == n
+		}
+		for chain > 0 && parse(chain-1).Offset == parse(last).Offset && unchanged(chain-1) {
 			chain--
 		}
 		vi := last
@@ -675,6 +684,10 @@ func c24Image(rt *rapid.T, cfg *c24Config, p *c24Point, mode int) crashfs.Cuts {
 			if int64(e.offset) > req[e.file] {
 				req[e.file] = int64(e.offset)
 			}
+		}
+		if os.Getenv("VERIF_DEBUG") != "" {
+			rt.Logf("DEBUG image %s mode %d: meta v%d %+v ref %d bytes idx %d bytes covered %d keep %d lim %d req %v entries %v",
+				t.name, mode, vi, mv, len(ref), idx.Size(), covered, ic.Keep, lim, req, c24ParseIndex(idx.Data))
 		}
 		prefix := t.name + "."
 		var newest *crashfs.File
